@@ -261,6 +261,74 @@ pub fn run_enc_check(ctx: &Ctx, check: &EncCheck) -> Stats {
     if fw::should_stop() {
         return total;
     }
+    // ---- uniform-run family: 15..=33 copies of one character (a whole stride of non-ASCII units)
+    // with output capacities below and around a stride
+    let st = par_run(ctx, n_enc * 4, |part, st| {
+        let enc = check.encs[part / 4];
+        let lane = part % 4;
+        let algo = enc_algo_for(enc);
+        let mut alpha: Vec<u32> = hist_enc::alphabet(enc).into_iter().filter(|c| *c >= 0x80).collect();
+        alpha.extend_from_slice(&[0xD800, 0xDC00]);
+        let mut sc = EScratch::new();
+        for (xi, &x) in alpha.iter().enumerate() {
+            if xi % 4 != lane {
+                continue;
+            }
+            for p in [0usize, 3] {
+                for k in [15usize, 16, 17, 32, 33] {
+                    if fw::should_stop() {
+                        return;
+                    }
+                    let mut text: Vec<u32> = (0..p).map(|i| 0x61 + i as u32).collect();
+                    for _ in 0..k {
+                        text.push(x);
+                    }
+                    text.push(0x7A);
+                    for &src in &check.srcs {
+                        if crate::drive_enc::is_sur(x) && src == Src::Utf8 {
+                            continue;
+                        }
+                        for &repl in &check.repls {
+                            if repl && check.mappable_only_when_repl && (crate::drive_enc::is_sur(x) || !model_enc::mappable(algo, x)) {
+                                continue;
+                            }
+                            let m = if repl { 14 } else { 4 };
+                            for caps in [vec![m], vec![m + 1], vec![m + 3], vec![15], vec![16], vec![17], vec![25], vec![26], vec![47], vec![m, 33]] {
+                                if caps[0] < m {
+                                    continue;
+                                }
+                                for &sink in &check.sinks {
+                                    if sink == ESink::Vec && src == Src::Utf16 {
+                                        continue;
+                                    }
+                                    let mut h = EncHistory::simple(enc, src, repl, &text);
+                                    h.sink = sink;
+                                    h.caps = caps.clone();
+                                    h.cuts = if k == 16 { vec![p] } else { vec![] };
+                                    h.align = (k + p) & 15;
+                                    st.evals += 1;
+                                    st.class("uniform-run-of-one-character");
+                                    if let Some((msg, sig)) = (check.verdict)(&h, &mut sc, st, true) {
+                                        if let Some(id) = fw::known_open_id(&sig) {
+                                            st.known_hit(id);
+                                        } else {
+                                            st.violations.push(violation_for(&h, check, msg, sig));
+                                            return;
+                                        }
+                                    }
+                                }
+                            }
+                        }
+                    }
+                }
+            }
+        }
+    });
+    total.merge(st);
+    total.exhaustive.push("uniform-run family: 15/16/17/32/33 copies of each non-ASCII alphabet character (UTF-16: also lone surrogates) after 0 or 3 ASCII characters x sources x sinks x modes x capacities {minimum, +1, +3, 15, 16, 17, 25, 26, 47, minimum then 33}".into());
+    if fw::should_stop() {
+        return total;
+    }
     // ---- block-boundary family: a long ASCII text ending 0..=3 characters before a power-of-two
     // offset, then one alphabet character (or a run of nine of it), then a tail
     let thorough = ctx.tier == fw::Tier::Thorough;
